@@ -449,6 +449,7 @@ RULES = {
         r"schedule (function|clear) " + re.escape(f["ref"]) + r"( |$)", f.get("line", "")) is not None,
     "C07-funcmap-raw-keyword": lambda job, res, f: f["kind"] == "dangling-reference" and re.search(
         r"/(right_click_setup|trigger_setup)/", f["path"]) is not None,
+    "C07-lazy-call-as-condition": lambda job, res, f: f["kind"] == "not-a-condition",
     EMPTY_AFTER_RUN_ID: lambda job, res, f: f["kind"] == "incomplete-command" and re.search(r" run ?$", f.get("line", "")) is not None,
     "C07-json-replaces-function-tag": lambda job, res, f: f["kind"] in ("load-not-registered", "tick-not-registered")
         and re.search(r"new\s+tags?\.functions?\s*\(\s*minecraft\.(load|tick)\s*\)", job.get("src", "")) is not None,
@@ -712,6 +713,10 @@ EMPTY_SHAPES = [
     ("func-tick", 'function __tick__() {@E@} function g() { __tick__(); }'),
     ("func-add", 'function base() {@E@} @add(base) function ext() {@E@} function g() { ext(); base(); }'),
     ("func-add-tick", '@add(__tick__) function ext() {@E@} @add(__load__) function ext2() {@E@}'),
+    # (round 3) several @add onto one target, the target without commands / declared after its @add
+    ("func-add-twice", 'function base() {@E@} @add(base) function ext() { say "e1"; } class k { @add(base) function ext2() {@E@} } @add(base) function ext3() { say "e3"; }'),
+    ("func-add-before-target", '@add(late.base) function ext() { say "e1"; } @add(late.base) function ext2() { say "e2"; } class late { function base() {@E@} }'),
+    ("func-add-tick-twice", 'function __tick__() {@E@} @add(__tick__) function ext() { say "e1"; } @add(__tick__) function ext2() {@E@} @add(__load__) function ext3() { say "e3"; } @add(__load__) function ext4() {@E@}'),
     ("func-with", 'function e() {@E@} function g() { e() with {x: 1}; }'),
     ("func-tag", 'function e() {@E@}\nnew tags.functions(mytag) {"values": ["TEST:e"]}\nfunction g() { function #TEST:mytag; }'),
     ("func-override", 'function minecraft.e() {@E@} function g() { minecraft.e(); }', "#override minecraft"),
@@ -1215,7 +1220,8 @@ def report_failure(ck, job, res, origin, f, reported, extra=None):
                pack_format=job.get("pack_format"), namespace=job.get("namespace", "TEST"), origin=origin,
                candidate_finding=rid, job=job,
                expected="every own-namespace reference (also inside quoted click-event text) resolves to an emitted file; legal paths; "
-                        "no empty or incomplete (`... run` + nothing) command line; load/tick registered",
+                        "no empty or incomplete (`... run` + nothing) command line; `execute if|unless` followed by a condition kind; every recorded call has its "
+                        "function file; load/tick registered",
                actual=f)
     if extra:
         rep.update(extra)
@@ -1297,6 +1303,10 @@ def main(tier: str) -> int:
         "printed command of the lowered code whose scan shows only its own calls), definedness of the calls the source itself makes, and "
         "json_discb / paths_disc / tag_free",
         "only ASCII names (Python str.lower() on non-ASCII letters is outside Model/ResLoc.v)",
+        "ODef (defined_file_pos) is logged by harness/optrace.py like the other dictionaries; Model.Alloc.fileless = defined name without a function after "
+        "assemble; which source constructs define a name without a file (@lazy, @if, json) is NOT modelled: the decorator x reference matrix "
+        "(harness/c07.py DECO_DEFS x REF_FORMS x every function-typed built-in argument) exercises them and the replay compares the verdict",
+        "the vocabulary of `execute if|unless` condition kinds (CONDITION_KINDS) is a written specification checked by the direct scan only",
         "references inside quoted text (`/function ns:x` in click events) and the test that a line is a complete command (not blank, "
         "no `execute ... run` with nothing behind it) are checked by the direct scan of the real output only; Model/Alloc.v's "
         "scanners and C07_lines speak about word-separated references and non-empty newline-free lines",
@@ -1372,12 +1382,12 @@ def main(tier: str) -> int:
     results = trace_jobs([j for _, j in jobs])
 
     phase("trace")
-    # the Coq replay of the decorator x reference matrix: quick = a third of it drawn from ck.rng plus every compile the direct
+    # the Coq replay of the decorator x reference matrix: quick = half of it drawn from ck.rng plus every compile the direct
     # scan objects to (the scan and called_without_file look at ALL of them); thorough = all
     replay_skip = set()
     if tier == "quick":
         for i, ((origin, job), res) in enumerate(zip(jobs, results)):
-            if origin.startswith("decoref:") and ck.rng.random() >= 0.34 and not (res["ok"] and res.get("cfg") and oracle(job, res)):
+            if origin.startswith("decoref:") and ck.rng.random() >= 0.5 and not (res["ok"] and res.get("cfg") and oracle(job, res)):
                 replay_skip.add(i)
     terms, tidx, unsupported = [], [], []
     for i, ((origin, job), res) in enumerate(zip(jobs, results)):
